@@ -73,29 +73,38 @@ def check_correction_table(ctx):
     byv = bell_by_value(ctx)
     params = A.param_names(fn)
     bsp, qp = params[1], params[2]
-    arms: Dict[str, List[E.Emit]] = {}
-    for st in fn.body:
-        if isinstance(st, ast.With) and len(st.items) == 1:
-            ce = st.items[0].context_expr
-            if isinstance(ce, ast.Call) and isinstance(ce.func, ast.Attribute) and ce.func.attr == "if_eq" and A.norm(ce.func.value) == bsp and len(ce.args) == 1:
-                try:
-                    v = ev.eval(ce.args[0], b.module)
-                except Unknown as e:
-                    ctx.error("C10.T", f"cannot evaluate {src(ce.args[0])}: {e}")
-                    continue
-                name = byv.get(v)
-                if name is None:
-                    ctx.check("C10.T", f"arm:{src(ce.args[0])}", False, f"correction arm compares the Bell state with {v}, which is no BellState value", b.loc(st))
-                    continue
-                ems = []
-                for x in st.body:
-                    for c in A.calls_in(x):
-                        em = E.parse_icmd(c)
-                        if em is not None and em.kind == "icmd":
-                            ems.append(em)
-                arms.setdefault(name, []).extend(ems)
+    # the emitter is interpreted abstractly (loops over tables, comprehensions and helper calls included): `self` and the Bell-state
+    # future are recorders, so the run yields the sequence  if_eq(v) ... add_pending_commands([...]) ...
+    sc = C.Scenario()
+    it = C.Interp(repo, ev, sc, None)
+    selfrec = C.Obj(None, {"name": "builder"}, "future")
+    bellrec = C.Obj(None, {"name": "bell_state"}, "future")
+    qreg = C.RegSym("qubit_reg")
+    try:
+        it.call_function(b.module, fn, [bellrec, qreg], {}, self_obj=selfrec)
+    except TypeError:
+        it.call_function(b.module, fn, [selfrec, bellrec, qreg], {})
+    arms: Dict[str, list] = {}
+    current = None
+    for rec in sc.recorded:
+        name_, obj_, args_, kwargs_ = rec
+        if name_ == "future.if_eq" and obj_ is bellrec:
+            v = args_[0] if args_ else None
+            v = v.value if isinstance(v, EnumMember) else v
+            current = byv.get(v)
+            if current is None:
+                ctx.check("C10.T", f"arm:{v}", False, f"correction arm compares the Bell state with {v}, which is no BellState value", b.loc(fn))
             else:
-                ctx.error("C10.T", f"unrecognised statement in {SINGLE}: {src(ce)[:60]}")
+                arms.setdefault(current, [])
+        elif name_ in ("future.subrt_add_pending_commands", "future.subrt_add_pending_command") and obj_ is selfrec:
+            cmds = args_[0] if args_ else kwargs_.get("commands", kwargs_.get("command"))
+            cmds = cmds if isinstance(cmds, list) else [cmds]
+            if current is None:
+                ctx.check("C10.T", "correction-outside-any-arm", False, "a correction command is emitted outside any `if bell_state == ...` arm", b.loc(fn))
+                continue
+            arms[current].extend(cmds)
+        elif name_.startswith("future.") and obj_ is bellrec:
+            ctx.error("C10.T", f"unrecognised use of the Bell-state future in {SINGLE}: {name_[7:]}")
     ctx.anchor("C10.T", "Bell-state correction arms", len(arms), 3)
     for name, state in sorted(BELL.items()):
         ems = arms.get(name, [])
@@ -103,17 +112,23 @@ def check_correction_table(ctx):
         seq = []
         bad_target = False
         for em in ems:
-            if em.instr not in ("ROT_X", "ROT_Y", "ROT_Z") or len(em.operands) != 3:
-                ctx.error("C10.T", f"correction arm {name}: unexpected command {em.instr}")
+            fields = getattr(em, "fields", {})
+            instr = fields.get("instruction")
+            iname = instr.name if isinstance(instr, EnumMember) else str(instr)
+            ops = fields.get("operands") or []
+            if iname not in ("ROT_X", "ROT_Y", "ROT_Z") or len(ops) != 3:
+                ctx.error("C10.T", f"correction arm {name}: unexpected command {iname}")
                 continue
-            n, d = ev.try_eval(em.operands[1], b.module), ev.try_eval(em.operands[2], b.module)
+            n, d = ops[1], ops[2]
+            n = n.value if isinstance(n, C.Imm) else n
+            d = d.value if isinstance(d, C.Imm) else d
             if not isinstance(n, int) or not isinstance(d, int):
                 ctx.error("C10.T", f"correction arm {name}: non-constant angle")
                 continue
-            if A.norm(em.operands[0]) != qp:
+            if ops[0] is not qreg:
                 bad_target = True
-            U = C.rot(em.instr[-1].lower(), n * math.pi / 2 ** d) @ U
-            seq.append((em.instr.lower(), n, d))
+            U = C.rot(iname[-1].lower(), n * math.pi / 2 ** d) @ U
+            seq.append((iname.lower(), n, d))
         out = np.kron(U, C.I2) @ state
         ok = abs(abs(np.vdot(BELL["PHI_PLUS"], out)) - 1) < 1e-9 and not bad_target
         ctx.check("C10.T", f"correction:{name}", ok,
@@ -247,7 +262,9 @@ def check_targets(ctx):
                 continue
             sites += 1
             unit = unit_of(fn, call)
-            uname = name if unit is fn else f"{name}.{unit.name}"
+            # a closure is named by its position among the closures of the method, not by its (local) name
+            closures = [n_ for n_ in ast.walk(fn) if isinstance(n_, (ast.FunctionDef, ast.AsyncFunctionDef)) and n_ is not fn]
+            uname = name if unit is fn else f"{name}.<closure {closures.index(unit) + 1}>"
             ctx.fn(f"Builder.{uname}")
             qarg = call.args[1] if len(call.args) > 1 else A.kwargs_of(call).get("qubit_reg")
             if not isinstance(qarg, ast.Name):
@@ -263,7 +280,7 @@ def check_targets(ctx):
                 if em is not None and em.kind == "icmd" and em.instr == "SET" and em.operands and A.norm(em.operands[0]) == R:
                     writes.append((c.lineno, "set", A.norm(em.operands[1]), c))
                 if isinstance(c.func, ast.Attribute) and c.func.attr == "get_load_commands" and c.args and A.norm(c.args[0]) == R:
-                    writes.append((c.lineno, "load", A.norm(c.func.value), c))
+                    writes.append((c.lineno, "load", A.norm(A.expand(c.func.value, A.single_defs(unit))), c))
             writes.sort(key=lambda w: w[0])
             last = writes[-1] if writes else None
             ok = False
